@@ -341,6 +341,26 @@ func runEntry(w *refgraph.World, call entryCall, cache spec.ResolutionCache, loa
 			}
 			err = spec.ExpandResponseWithRoot(&p, root, cache)
 			out = &p
+		case "param", "resp":
+			// ExpandParameter / ExpandResponse take no options: they use the package-level loader
+			old := spec.PathLoader
+			spec.PathLoader = loader
+			defer func() { spec.PathLoader = old }()
+			if call.Entry == "param" {
+				var p spec.Parameter
+				if err = json.Unmarshal([]byte(elem.Text()), &p); err != nil {
+					return
+				}
+				err = spec.ExpandParameter(&p, w.Root)
+				out = &p
+			} else {
+				var p spec.Response
+				if err = json.Unmarshal([]byte(elem.Text()), &p); err != nil {
+					return
+				}
+				err = spec.ExpandResponse(&p, w.Root)
+				out = &p
+			}
 		case "spec":
 			var sw *spec.Swagger
 			if sw, err = decodeSwagger(rootDoc); err != nil {
